@@ -10,6 +10,7 @@ from msmart.lan import LAN, AuthenticationError, ProtocolError
 
 IP, PORT = "1.2.3.4", 6444
 STATE = bytes.fromhex("aa22ac00000000000303c0014566000000300010045cff2070000000000000008bed19")
+PUSHED = bytes.fromhex("aa22ac00000000000305c001456600000030001004ffff2070000000000000008bed19")
 FRAME = bytes.fromhex("aa21ac00000000000003418100ff03ff000200000000000000000000000003016971")[:0] or None
 
 
@@ -87,6 +88,14 @@ class Director:
             reply = d._proper_reply(conn, req)
             if reply:
                 d._send(conn, 0.1 if mode == "ok" else 2.137, reply)
+        elif mode == "okpush":
+            # answered properly, and a different (unsolicited) frame is pushed later, while the connection is idle:
+            # it is found in the receive queue by the NEXT exchange, which must return it before its own response
+            reply = d._proper_reply(conn, req)
+            if reply:
+                d._send(conn, 0.1, reply)
+                if req["kind"] != "hs":
+                    d._send(conn, 0.637, d.wrap(conn, req.get("counter") or 0, [PUSHED]))
         elif mode == "bad":
             reply = d._proper_reply(conn, req, wrong_key=True)
             if reply:
@@ -100,6 +109,9 @@ class Director:
                 d._send(conn, 0.1, b"\x5a\x5a\x01\x11\x48\x00" + bytes(range(66)))
         elif mode == "close":
             tr.peer_close(0.1)
+        elif mode == "reset":
+            # the peer resets the connection: asyncio reports it with an exception (connection_lost(exc))
+            tr.peer_close(0.1, ConnectionResetError(104, "Connection reset by peer"))
         elif mode == "verylate":
             # answered properly, but only after all retransmissions have timed out
             reply = d._proper_reply(conn, req)
@@ -278,7 +290,8 @@ def compare(ctx, stream, version, ops, behaviours, connects, token, key, note=No
         # acceptance events are not observable from outside: drop them from the model's log
         peer_closed = {f"x{c}" for c, i, d, v in res["rx"] if v == "close"}
         # (a client-side close of a transport the peer already closed is not observable either)
-        mlog = [e for e in mevs if not e.split(":", 1)[1].startswith("a") and e.split(":", 1)[1] not in peer_closed]
+        # (nor is the forgetting of the old key at the start of a handshake)
+        mlog = [e for e in mevs if not e.split(":", 1)[1].startswith(("a", "f")) and e.split(":", 1)[1] not in peer_closed]
         if mouts != res["outcomes"] or mlog != ilog:
             first = next((i for i, (a, b) in enumerate(zip(mlog, ilog)) if a != b), min(len(mlog), len(ilog)))
             ctx.disagree(stream, {**inp, "line": line[:3000]},
